@@ -433,6 +433,13 @@ pub fn get_bind_group_data(
     }
 }
 
+#[cfg(wgsl_to_wgpu_verif)]
+pub mod verif {
+    pub fn storage_access(access: naga::StorageAccess) -> String {
+        super::storage_access(access).to_string()
+    }
+}
+
 #[cfg(test)]
 mod tests {
     use super::*;
